@@ -463,80 +463,90 @@ func runC11(c *CaseCtx) *CaseResult {
 	cc.Mon = MonCfg{TreeEvery: 1, DeepEvery: 19, RefEvery: 41, ReachEvery: 7, SizeEvery: 3, ColdAtCommit: true}
 	cc.CommitEvery = []int{9, 30}[c.Case%2]
 	cc.Phases = scalePhases(ops, []Phase{PhaseGrow, PhaseChurn, PhaseChurn, PhaseShrink, PhaseChurn}, []int{25, 25, 20, 10, 20})
-	staleMut, staleWhileReplaced := 0, 0
-	var w0 *World
-	detachedAt := map[*Node]int{}
-	var setup bool
-	cc.PerOp = func(w *World, root *Node) error {
-		if !setup {
-			setup = true
-			w0 = w
-			w.OnDetach = func(n *Node, s atree.Storable) bool {
-				if len(w.detached) >= 6 || w.rng.Intn(100) < 35 {
+	play := newDetachedPlay(6, 35, 100)
+	cc.PerOp = play.PerOp
+	res, w, _ := runContainerCase(c, cc)
+	s := w.stats
+	s.Extra["stale-handle-mutations"] += play.staleMut
+	s.Extra["stale-mutations-after-parent-moved-on"] += play.staleWhileReplaced
+	res.NonTrivial = play.staleWhileReplaced > 0 && s.Extra["reattached"] > 0 && s.Extra["detached-kept-stale-handle"] > 0
+	return res
+}
+
+// detachedPlay keeps some detached containers alive (stale handle kept, or reloaded by slab id), mutates them through
+// that handle while the former parent keeps changing, re-attaches them elsewhere or disposes of them.
+type detachedPlay struct {
+	maxKept, dropPct, playPct      int
+	staleMut, staleWhileReplaced   int
+	detachedAt                     map[*Node]int
+	setup                          bool
+}
+
+func newDetachedPlay(maxKept, dropPct, playPct int) *detachedPlay {
+	return &detachedPlay{maxKept: maxKept, dropPct: dropPct, playPct: playPct, detachedAt: map[*Node]int{}}
+}
+
+func (p *detachedPlay) PerOp(w *World, root *Node) error {
+	if !p.setup {
+		p.setup = true
+		w.OnDetach = func(n *Node, s atree.Storable) bool {
+			if len(w.detached) >= p.maxKept || w.rng.Intn(100) < p.dropPct {
+				return false
+			}
+			// keep the detached container alive; keep the stale handle when we hold one
+			if (n.Kind == KArr && n.Arr == nil) || (n.Kind == KMap && n.Map == nil) || w.rng.Intn(4) == 0 {
+				inner, _ := unwrapSomeStorable(s)
+				sid, ok := inner.(atree.SlabIDStorable)
+				if !ok {
 					return false
 				}
-				// keep the detached container alive; keep the stale handle when we hold one
-				if (n.Kind == KArr && n.Arr == nil) || (n.Kind == KMap && n.Map == nil) || w.rng.Intn(4) == 0 {
-					inner, _ := unwrapSomeStorable(s)
-					sid, ok := inner.(atree.SlabIDStorable)
-					if !ok {
-						return false
-					}
-					if err := w.reopenRoot(n, atree.SlabID(sid), w.st); err != nil {
-						return false
-					}
-					w.stats.Extra["detached-reloaded-by-id"]++
-				} else {
-					dropHandles(n, false)
-					w.stats.Extra["detached-kept-stale-handle"]++
+				if err := w.reopenRoot(n, atree.SlabID(sid), w.st); err != nil {
+					return false
 				}
-				w.detached = append(w.detached, n)
-				detachedAt[n] = w.opCount
-				return true
+				w.stats.Extra["detached-reloaded-by-id"]++
+			} else {
+				dropHandles(n, false)
+				w.stats.Extra["detached-kept-stale-handle"]++
 			}
+			w.detached = append(w.detached, n)
+			p.detachedAt[n] = w.opCount
+			return true
 		}
-		if len(w.detached) == 0 {
-			return nil
-		}
-		// mutate a detached container through its (stale) handle, re-attach it, or dispose of it
-		d := w.detached[w.rng.Intn(len(w.detached))]
-		switch roll := w.rng.Intn(100); {
-		case roll < 70:
-			staleMut++
-			if w.opCount-detachedAt[d] > 3 {
-				staleWhileReplaced++
-			}
-			n := 1 + w.rng.Intn(3)
-			for i := 0; i < n; i++ {
-				if err := w.Step(d, PhaseChurn, &HistCfg{DescendPct: 20, PopOnChild: true}); err != nil {
-					return err
-				}
-			}
-		case roll < 85:
-			// re-attach somewhere in the live tree (same address)
-			target := w.pickContainer(root, 40)
-			w.removeDetached(d)
-			w.stats.Extra["reattached"]++
-			if target.Kind == KArr {
-				return w.OpArrayInsert(target, w.pickIndex(target, true, nil), d)
-			}
-			return w.OpMapSet(target, w.genKey(target, w.prof.KeySpace), d)
-		default:
-			w.removeDetached(d)
-			w.stats.Extra["detached-disposed"]++
-			id := rootID(d)
-			dropHandles(d, true)
-			return w.dispose(atree.SlabIDStorable(id))
-		}
+	}
+	if len(w.detached) == 0 || w.rng.Intn(100) >= p.playPct {
 		return nil
 	}
-	res, w, _ := runContainerCase(c, cc)
-	_ = w0
-	s := w.stats
-	s.Extra["stale-handle-mutations"] += staleMut
-	s.Extra["stale-mutations-after-parent-moved-on"] += staleWhileReplaced
-	res.NonTrivial = staleWhileReplaced > 0 && s.Extra["reattached"] > 0 && s.Extra["detached-kept-stale-handle"] > 0
-	return res
+	// mutate a detached container through its (stale) handle, re-attach it, or dispose of it
+	d := w.detached[w.rng.Intn(len(w.detached))]
+	switch roll := w.rng.Intn(100); {
+	case roll < 70:
+		p.staleMut++
+		if w.opCount-p.detachedAt[d] > 3 {
+			p.staleWhileReplaced++
+		}
+		n := 1 + w.rng.Intn(3)
+		for i := 0; i < n; i++ {
+			if err := w.Step(d, PhaseChurn, &HistCfg{DescendPct: 20, PopOnChild: true}); err != nil {
+				return err
+			}
+		}
+	case roll < 85:
+		// re-attach somewhere in the live tree (same address)
+		target := w.pickContainer(root, 40)
+		w.removeDetached(d)
+		w.stats.Extra["reattached"]++
+		if target.Kind == KArr {
+			return w.OpArrayInsert(target, w.pickIndex(target, true, nil), d)
+		}
+		return w.OpMapSet(target, w.genKey(target, w.prof.KeySpace), d)
+	default:
+		w.removeDetached(d)
+		w.stats.Extra["detached-disposed"]++
+		id := rootID(d)
+		dropHandles(d, true)
+		return w.dispose(atree.SlabIDStorable(id))
+	}
+	return nil
 }
 
 func (w *World) removeDetached(d *Node) {
@@ -558,7 +568,7 @@ func init() {
 		}
 	}
 	register(&Prop{
-		ID: "C05", Level: "exploration", Run: runC05, Cases: cases(c05SweepCases+16*12, c05SweepCases+16*150), MinNonTrivial: 16,
+		ID: "C05", Level: "exploration", Run: runC05, Cases: cases(c05SweepCases+16*24, c05SweepCases+16*150), MinNonTrivial: 16,
 		Rule: "cases 0..15 = exhaustive sweep of every legal slab size 256..32768 (residue classes mod 16) checking the arithmetic behind 'a full slab holds >= 2 elements'; " +
 			"remaining cases = seeded histories with the hostile size profile (strings at the inline limit -2..+2, at 1/2 and 1/4 of the limit, one-byte and larger-than-slab elements, in-place growth/shrink via Set) on arrays and maps, " +
 			"independent structural walk after every operation (size band of every size-limited slab, element limits, header/child agreement, prefix sums, first digests, sorted-unique digests, sibling links, root index >= 2 children). " +
@@ -567,7 +577,7 @@ func init() {
 		Mandatory:   []string{"slabs_near_upper_bound", "slabs_near_lower_bound", "ops_that_removed_slabs", "slab_sizes_swept"},
 	})
 	register(&Prop{
-		ID: "C06", Level: "exploration", Run: runC06, Cases: cases(16*12, 16*120), MinNonTrivial: 8,
+		ID: "C06", Level: "exploration", Run: runC06, Cases: cases(16*48, 16*200), MinNonTrivial: 8,
 		Rule: "cases = seeded histories rich in inlined arrays/maps (incl. composite-typed maps => compact form), wrappers, collision groups (adversarial digester), large values; after EVERY operation every dirtied slab is encoded and " +
 			"len(register) - extra data item - inlined extra data item (+16 for an omitted sibling link) + exact compact saving must EQUAL the reported size; every inline element re-encoded alone; decoded size == live size; all registers re-checked at commits. " +
 			"non-trivial = >50 slabs byte-checked incl. non-root ones, a compact map or collision group checked by equality, and an inline<->standalone flip; distinct by hash(config, operation list)",
@@ -575,7 +585,7 @@ func init() {
 		Mandatory:   []string{"bytes-slabs", "bytes-compact-eq", "bytes-groups", "bytes-no-next", "registers_checked"},
 	})
 	register(&Prop{
-		ID: "C07", Level: "exploration", Run: runC07, Cases: cases(16*12, 16*120), MinNonTrivial: 8,
+		ID: "C07", Level: "exploration", Run: runC07, Cases: cases(16*48, 16*200), MinNonTrivial: 8,
 		Rule: "cases = seeded histories emphasising extra-data layouts (many inlined children with equal / different type infos, same-typed composite maps with equal key sets, nesting depth <=4, collision groups, large values); " +
 			"for every dirtied slab after every operation and every register at commits: Encode(Decode(R)) == R byte-for-byte, decoded content == live content (compact maps: key->value content), head flags (root, has-references, size-limited, has-next) == independently computed truth; in-repo serialization verifiers as secondary oracle. " +
 			"non-trivial = >20 registers checked and a compact pair, a collision group or >1 inlined child present; distinct by hash(config, operation list)",
@@ -583,7 +593,7 @@ func init() {
 		Mandatory:   []string{"bytes-slabs", "registers_checked", "inrepo-serialization-verifies"},
 	})
 	register(&Prop{
-		ID: "C09", Level: "exploration", Run: runC09, Cases: cases(16*10, 16*120), MinNonTrivial: 8,
+		ID: "C09", Level: "exploration", Run: runC09, Cases: cases(16*36, 16*200), MinNonTrivial: 8,
 		Rule: "cases = seeded histories in which the harness disposes of every storable handed back (recursively); after EVERY operation the set of ids the storage resolves (universe = every id ever generated, recorded by the storage proxy) must equal the set reached " +
 			"from the live roots by an independent walk, each non-root slab reached exactly once, owner address constant; same on registers after commits; finally the container is drained and must occupy exactly one slab / one register. " +
 			"non-trivial = merges, large-value slabs, inline<->standalone flips (and collision groups for maps) all occurred; distinct by hash(config, operation list)",
@@ -591,7 +601,7 @@ func init() {
 		Mandatory:   []string{"reach_checks", "external_groups_seen", "large_value_slabs_seen", "ops_that_removed_slabs"},
 	})
 	register(&Prop{
-		ID: "C03", Level: "exploration", Run: runC03, Cases: cases(16*12, 16*100), MinNonTrivial: 8,
+		ID: "C03", Level: "exploration", Run: runC03, Cases: cases(16*48, 16*200), MinNonTrivial: 8,
 		Rule: "cases = seeded histories with commit placement from 'after every operation' to 'only at the end', both commit flavours, 1/3/16 workers, optionally a second root at the temporary address; the ledger proxy flags any write/delete outside a commit call and any write with the zero address; " +
 			"a crash point is taken after EVERY operation (register map must be byte-identical to the one at the last successful commit) and a cold storage over a copy of the registers must rebuild every live root equal to the model snapshot of the last commit (every 9th operation, before and after each commit). " +
 			"non-trivial = >=2 commits, multi-slab container, >=1 slab deleted, >=1 crash point with uncommitted changes pending; distinct by hash(config, operation list)",
@@ -599,7 +609,7 @@ func init() {
 		Mandatory:   []string{"crash_points", "cold_reopens", "crash-points-with-pending-changes", "temp-root-cases"},
 	})
 	register(&Prop{
-		ID: "C10", Level: "exploration", Run: runC10, Cases: cases(16*10, 16*120), MinNonTrivial: 8,
+		ID: "C10", Level: "exploration", Run: runC10, Cases: cases(16*60, 16*300), MinNonTrivial: 8,
 		Rule: "cases = seeded histories on trees of depth 3-5 mixing arrays and maps, wrapped and unwrapped children; 72% of operations go through handles of nested containers (acquired on insertion, by Get, refreshed at PRNG times), every mutator incl. SetType and bulk pop; " +
 			"after EVERY operation the whole tree is compared with the model from the ROOT (structure walk incl. the inline rule: inlined iff single slab within the parent's element limit minus wrapper size; value ids constant) and at commits rebuilt cold from registers. " +
 			"non-trivial = children flipped inline->standalone and standalone->inline, handles were refreshed, cold reopen happened; distinct by hash(config, operation list)",
@@ -607,7 +617,7 @@ func init() {
 		Mandatory:   []string{"inline_to_standalone_flips", "standalone_to_inline_flips", "cold_reopens"},
 	})
 	register(&Prop{
-		ID: "C11", Level: "exploration", Run: runC11, Cases: cases(16*10, 16*120), MinNonTrivial: 8,
+		ID: "C11", Level: "exploration", Run: runC11, Cases: cases(16*24, 16*200), MinNonTrivial: 8,
 		Rule: "cases = seeded histories in which children removed from / overwritten in their parent are kept alive (stale handle kept, or reloaded by slab id), mutated through that handle while the parent keeps changing, re-attached elsewhere or disposed of; " +
 			"after EVERY operation the former parent and every detached container are compared with their (now independent) models: content, structure, byte-level sizes, reachability with detached containers as extra roots, cold rebuild at commits. " +
 			"non-trivial = a stale-handle mutation issued >3 operations after detachment, a re-attachment, and a stale handle kept; distinct by hash(config, operation list)",
